@@ -482,6 +482,35 @@ def r9_totals_fit(ctx):
     totals_gate(ctx, r)
 
 
+def _only_feeds_assertion(b, bi, t):
+    """the value of the call at bb[bi] is used by nothing but an assertion: apart from the comparison inside the assert macro it is handed only to
+    core::panicking::assert_failed (`debug_assert_eq!(h, x.wrapping_add(1))`), it is stored nowhere and returned nowhere"""
+    try:
+        e = b.rec_call(t, bi)
+        se = sig(q.novers(e))
+        fails = 0
+        for cb, ce in q.all_call_exprs(b):
+            if cb == bi:
+                continue
+            sc = sig(q.novers(ce))
+            if se in sc:
+                if ce[0] == "call" and ce[1].split("::")[-1] in ("assert_failed", "assert_failed_inner", "panic", "panic_fmt"):
+                    fails += 1
+                else:
+                    return False
+        if not fails:
+            return False
+        for w in q.writes_in(b):
+            if se in sig(q.novers(w[3])):
+                return False
+        for x in q.ret_assignments(b):
+            if se in sig(q.novers(x[2])):
+                return False
+        return True
+    except Exception:
+        return False
+
+
 def r10_no_wraparound(ctx):
     """Amounts (coin values, fee pool, tips, pool totals, voting power) are 128-bit and, wherever Faucet transactions are admitted, not bounded by a supply
     (D20).  The code adds them with saturating or checked operations; a wrapping operation turns a total past 2^128 into a small number — a fee pool that
@@ -498,6 +527,9 @@ def r10_no_wraparound(ctx):
             last = nm.split("::")[-1]
             if (nm.startswith("core::num::<impl ") and last.startswith("wrapping_") and last not in ("wrapping_shl", "wrapping_shr")) or "num::Wrapping" in nm:
                 if t.get("exp"):
+                    continue
+                if _only_feeds_assertion(b, bi, t):
+                    r.info("wrap/assertion-only@%s" % b.nname.split("::")[-1], "%s in %s only feeds an assertion (a comparison one outcome of which never returns): not arithmetic on an amount" % (last, b.nname), b.where(bi))
                     continue
                 n += 1
                 host = b.nname.split("::{closure")[0].split("::")[-1]
